@@ -906,6 +906,18 @@ def op_tracker(op, oid, ctx):
         time.sleep(op.get("settle", 0.1))
     elif what == "mk_sem":
         OBJS[op["obj"]] = get_context("loky").Semaphore(1)
+    elif what == "bad_request":
+        # requests the shared tracker must report and skip: they must neither stop it nor disturb what the tree registered
+        k = op.get("kind", "unknown_type")
+        if k == "unknown_type":
+            rt.register("lv-unknown-%s" % oid, "shared_memory")
+        elif k == "unregister_untracked":
+            rt.unregister(os.path.join(RESDIR, "never-registered-%s" % oid), "file")
+        elif k == "maybe_unlink_untracked":
+            rt.maybe_unlink(os.path.join(RESDIR, "never-registered-%s" % oid), "file")
+        elif k == "garbage":
+            rt._resource_tracker._send("FROBNICATE", "x", "file")
+        time.sleep(op.get("settle", 0.15))
     elif what == "spawn_probe":
         # the next tracked operation after a tracker death is a process spawn: the child must
         # report to the same (relaunched) tracker as the root, and what it registers must outlive it
